@@ -15,6 +15,15 @@ func main() {
 		cmdDump(os.Args[2:])
 	case "functions":
 		cmdFunctions(os.Args[2:])
+	case "mods":
+		e := setup()
+		for _, a := range os.Args[2:] {
+			if fn := e.funcs[a]; fn != nil {
+				fmt.Println(a, e.modsetOf(fn).String())
+			} else {
+				fmt.Println("not found:", a)
+			}
+		}
 	case "unit":
 		cmdUnit(os.Args[2:])
 	case "check":
